@@ -37,3 +37,9 @@ package repository
 //@ func Hash.String
 //@   purefn
 //@   ensures result == string(h)
+
+// GraphQL scalar decoding must never panic, whatever value gqlgen hands over (C17).
+//@ func (*Hash).UnmarshalGQL
+//@   props C17
+//@   nopanic
+//@   requires h != nil
